@@ -157,6 +157,9 @@ pub enum Judge {
     Std(usize, Option<u64>),
     /// SkipRecord the first time it is asked about a non-empty range, KeepGoing otherwise
     SkipFirst,
+    /// SkipRecord whenever the range starts before this offset (also when asked about a
+    /// delimiter, i.e. with an empty range): "resume after offset L"
+    SkipBelow(u64),
 }
 
 impl Judge {
@@ -164,11 +167,15 @@ impl Judge {
         match self {
             Judge::Std(max, lim) => format!("std({},{})", if *max == usize::MAX { "inf".to_string() } else { max.to_string() }, lim.map(|l| l.to_string()).unwrap_or("none".into())),
             Judge::SkipFirst => "skipfirst".into(),
+            Judge::SkipBelow(l) => format!("skipbelow({})", l),
         }
     }
     pub fn parse(text: &str) -> Option<Judge> {
         if text == "skipfirst" {
             return Some(Judge::SkipFirst);
+        }
+        if let Some(l) = text.strip_prefix("skipbelow(").and_then(|x| x.strip_suffix(')')) {
+            return Some(Judge::SkipBelow(l.parse().ok()?));
         }
         let body = text.strip_prefix("std(")?.strip_suffix(')')?;
         let (m, l) = body.split_once(',')?;
@@ -212,6 +219,13 @@ pub fn reference_records(stream: &[u8], judge: Judge) -> Vec<(Vec<u8>, std::ops:
                     }
                     first_segment_seen = true;
                 }
+                Judge::SkipBelow(l) => {
+                    if a >= l {
+                        if let Some(d) = decoded {
+                            out.push((d, a..b));
+                        }
+                    }
+                }
             }
         }
         match next {
@@ -253,7 +267,7 @@ fn reader_run_inner(stream: &[u8], block: Option<usize>, sched: &Sched, judge: J
     let make_judge = || {
         let std_judge = match judge {
             Judge::Std(max, lim) => Some(StreamReader::chunk_judge(max, lim)),
-            Judge::SkipFirst => None,
+            Judge::SkipFirst | Judge::SkipBelow(_) => None,
         };
         let judge_violation = &judge_violation;
         let skip_used = &skip_used;
@@ -270,6 +284,9 @@ fn reader_run_inner(stream: &[u8], block: Option<usize>, sched: &Sched, judge: J
             match &std_judge {
                 Some(j) => j(range, iovec),
                 None => {
+                    if let Judge::SkipBelow(l) = judge {
+                        return if range.start < l { StreamAction::SkipRecord } else { StreamAction::KeepGoing };
+                    }
                     if !range.is_empty() && !skip_used.get() {
                         skip_used.set(true);
                         StreamAction::SkipRecord
@@ -317,7 +334,7 @@ fn reader_run_inner(stream: &[u8], block: Option<usize>, sched: &Sched, judge: J
             return Err("a record was returned after end of stream".into());
         }
     }
-    if let Judge::Std(_, None) | Judge::SkipFirst = judge {
+    if let Judge::Std(_, None) | Judge::SkipFirst | Judge::SkipBelow(_) = judge {
         if reader.delivered() != stream.len() {
             return Err(format!("end of stream reported after reading {} of {} bytes", reader.delivered(), stream.len()));
         }
